@@ -1,5 +1,7 @@
 import Hertz.Model.Http1.Stream
 import Hertz.Proofs.StreamChunked
+import Hertz.Model.Http1.StreamX
+import Hertz.Proofs.StreamX
 /-!
 # C14 — a streamed request body reads exactly the body and keeps the connection in sync
 
@@ -359,5 +361,91 @@ connection is closed although a complete request follows. -/
 example : (streamBody {} .eof { cl := -1 } [49, 13, 10, 97, 13, 10, 122, 122, 13, 10, 13, 10, 71, 69, 84]
     { readSize := 16, stopAfter := 50 }).toOption.map (fun p => (p.1.got.bytes, p.1.got.err, p.2)) =
     some ([97], true, .closed) := by decide +kernel
+
+/-! ## idle style of the transport and read time-outs in the middle of the stream
+
+`serveStreamX` (`Model/Http1/StreamX.lean`): the loop above with (a) the return-to-poller style of a
+transport with `IdleTimeout == 0` (netpoll): `Server.Serve` returns after every kept-alive request and is
+entered again, as a first iteration, while unread input remains; (b) the inbound stream cut into segments
+by read time-outs: a read that needs a byte of the next segment fails once, then the bytes are there.
+Lemmas in `Proofs/StreamX.lean`. -/
+
+/-- with the in-loop idle wait and no time-out the extended model is the model of the theorems above -/
+theorem no_timeout_is_plain_model (cfg : Cfg) (e : End) (c : Consume) (s : Bytes) :
+    serveStreamX cfg false e c [] s = serveStream cfg e c s :=
+  serveStreamX_plain cfg e c s
+
+/-- (3) in every idle style and for time-outs anywhere (any number, repeated): after a request whose body
+read failed - a time-out inside the body included - nothing but that request's response follows; no later
+byte is parsed as a request, whatever arrives after the time-out. -/
+theorem nothing_after_stream_error_any_style (cfg : Cfg) (poll : Bool) (e : End) (c : Consume) (tmos : List Nat) (s : Bytes) :
+    errEnds (serveStreamX cfg poll e c tmos s) = true :=
+  streamLoopX_errEnds cfg poll e c _ true _
+
+/-- (2) in every idle style: after a kept-alive streamed request the connection goes on (`contX`: the next
+loop iteration, or the next entry of `Serve` from the poller) with exactly the `rest` the release of the body
+stream left - never with bytes of the body. -/
+theorem after_means_next_entry_from_rest (cfg : Cfg) (poll : Bool) (e : End) (c : Consume) (fuel : Nat) (first : Bool)
+    (v : Bytes) (more : List Bytes) (hd : ReqHead) (n : Nat) (r : ReqOut) (a : After) (more' : List Bytes)
+    (hgo : (!first && decide (v.length < 4)) = false) (hp : parseReqHead cfg.disableNorm v = .ok (hd, n))
+    (hb : streamBodyX cfg e hd (v.drop n) more c = .ok (r, a, more'))
+    (hk : (cfg.disableKeepalive || r.head.connClose) = false) :
+    streamLoopX cfg poll e c (fuel + 1) first (v :: more) =
+      (if mayContinue hd then [SEv.continue100] else []) ++ [.req r, .resp 200 false] ++
+        match a with
+        | .resync rest => contX cfg poll e c fuel rest more'
+        | .closed => []
+        | .either rest => .maybeClosed :: contX cfg poll e c fuel rest more' :=
+  streamLoopX_after cfg poll e c fuel first v more hd n r a more' hgo hp hb hk
+
+/-- return-to-poller style: `Serve` is entered again at exactly `rest`, as a first iteration (no idle
+`Peek(4)`), as long as a byte of the current segment is left -/
+theorem poll_reenters_at_rest (cfg : Cfg) (e : End) (c : Consume) (fuel : Nat) (b : UInt8) (rest : Bytes) (more : List Bytes) :
+    contX cfg true e c fuel (b :: rest) more = streamLoopX cfg true e c fuel true ((b :: rest) :: more) := rfl
+
+/-- non-vacuity (the situation of the return-to-poller style): chunk payload `A: b`, empty line, a complete
+request for `/smuggled`; the handler reads nothing; `Serve` is left and entered again.  Events: request `/c`
+(1), response (2), maybe-closed (3), then the probe - the payload is skipped, not served. -/
+example : (serveStreamX {} true .eof { readSize := 64, stopAfter := 0 } []
+    [80, 79, 83, 84, 32, 47, 99, 32, 72, 84, 84, 80, 47, 49, 46, 49, 13, 10, 72, 111, 115, 116, 58, 32, 104, 13, 10, 84, 114, 97, 110, 115, 102, 101, 114, 45, 69, 110, 99, 111, 100, 105, 110, 103, 58, 32, 99, 104, 117, 110, 107, 101, 100, 13, 10, 13, 10, 50, 98, 13, 10, 65, 58, 32, 98, 13, 10, 13, 10, 71, 69, 84, 32, 47, 115, 109, 117, 103, 103, 108, 101, 100, 32, 72, 84, 84, 80, 47, 49, 46, 49, 13, 10, 72, 111, 115, 116, 58, 32, 120, 13, 10, 13, 10, 13, 10, 48, 13, 10, 13, 10, 71, 69, 84, 32, 47, 112, 114, 111, 98, 101, 32, 72, 84, 84, 80, 47, 49, 46, 49, 13, 10, 72, 111, 115, 116, 58, 32, 112, 13, 10, 13, 10]).map
+    (fun ev => match ev with
+      | .continue100 => (0, []) | .req r => (1, r.head.uri) | .resp _ _ => (2, []) | .maybeClosed => (3, [])) =
+    [(1, [47, 99]), (2, []), (3, []), (1, [47, 112, 114, 111, 98, 101]), (2, [])] := by decide +kernel
+
+/-- `bytesconv.ReadHexInt` drops a read error that comes after at least one digit, so a time-out that strikes
+inside a chunk-size line is used up unnoticed.  That can never make a cut number pass for a whole one: if the
+next segment goes on with a hex digit the size line is refused (the read fails, the connection is closed by
+`nothing_after_stream_error_any_style`) ... -/
+theorem cut_size_line_is_refused (e : End) (v : Bytes) (d : UInt8) (t : Bytes) (ms : List Bytes) (n : Nat)
+    (hv : readHexInt .stall v = .ok (n, [])) (hd : hex2int d ≠ 16) :
+    parseChunkSizeX e v ((d :: t) :: ms) = .error .bad :=
+  parseChunkSizeX_cut_refused e v d t ms n hv hd
+
+/-- ... and if it goes on with anything else the number was whole: the size line is read exactly as if the
+two segments had arrived together. -/
+theorem whole_size_line_timeout_invisible (e : End) (v : Bytes) (d : UInt8) (t : Bytes) (ms : List Bytes) (n : Nat)
+    (hv : readHexInt .stall v = .ok (n, [])) (hd : hex2int d = 16) :
+    parseChunkSizeX e v ((d :: t) :: ms) =
+      match parseChunkSize (viewEnd e ms) (v ++ d :: t) with
+      | .error x => .error x
+      | .ok (k, r) => .ok (k, r, ms) :=
+  parseChunkSizeX_whole_invisible e v d t ms n hv hd
+
+set_option maxRecDepth 100000 in
+/-- non-vacuity of both: `3` | `0\r\n…` is refused, `30` | `\r\n` is the size 0x30 -/
+example : readHexInt .stall [51] = .ok (3, []) ∧ hex2int 48 ≠ 16 ∧
+    readHexInt .stall [51, 48] = .ok (48, []) ∧ hex2int 13 = 16 :=
+  ⟨rfl, by decide +kernel, rfl, by decide +kernel⟩
+
+/-- non-vacuity of `nothing_after_stream_error_any_style` with a time-out: second chunk of 0x30 bytes that
+start with an empty line and a complete request for `/smuggled`; the peer pauses after the `3` of `30` for
+two read time-outs (offset 68 twice) and then sends the rest: the handler's read fails after `hello`, the
+response is written and that is all - in both idle styles. -/
+example : ∀ poll, (serveStreamX {} poll .eof { readSize := 64, stopAfter := 100 } [68, 68]
+    [80, 79, 83, 84, 32, 47, 99, 32, 72, 84, 84, 80, 47, 49, 46, 49, 13, 10, 72, 111, 115, 116, 58, 32, 104, 13, 10, 84, 114, 97, 110, 115, 102, 101, 114, 45, 69, 110, 99, 111, 100, 105, 110, 103, 58, 32, 99, 104, 117, 110, 107, 101, 100, 13, 10, 13, 10, 53, 13, 10, 104, 101, 108, 108, 111, 13, 10, 51, 48, 13, 10, 13, 10, 71, 69, 84, 32, 47, 115, 109, 117, 103, 103, 108, 101, 100, 32, 72, 84, 84, 80, 47, 49, 46, 49, 13, 10, 72, 111, 115, 116, 58, 32, 120, 13, 10, 13, 10, 120, 120, 120, 120, 120, 120, 120, 120, 120, 120, 120, 13, 10, 48, 13, 10, 13, 10, 71, 69, 84, 32, 47, 112, 114, 111, 98, 101, 32, 72, 84, 84, 80, 47, 49, 46, 49, 13, 10, 72, 111, 115, 116, 58, 32, 112, 13, 10, 13, 10]).map
+    (fun ev => match ev with
+      | .continue100 => (0, [], false) | .req r => (1, r.got.bytes, r.got.err) | .resp _ _ => (2, [], false)
+      | .maybeClosed => (3, [], false)) =
+    [(1, [104, 101, 108, 108, 111], true), (2, [], false)] := by decide +kernel
 
 end Hertz.Props.C14
